@@ -657,7 +657,13 @@ def c11_episodes(seed, scale=1):
     for n in sorted(set(lens)):
         d = r.choice([0.0, 0.01, 0.5, 1.0])
         v = random_density(r, n, d) if n <= 70000 else mkvec(n, [(0, n)] if d >= 0.5 else [(5, 6), (n // 2, n // 2 + 70)])
-        ops = [vec_op(v, next(tl))]
+        tail = next(tl)
+        if len(eps) % 4 == 1:
+            # much more storage than the length needs (a vector that was far longer once, a caller-supplied
+            # backend): a structure sized by the backend instead of the length shows here
+            tail = r.choice([{"t": "extra", "k": r.choice([64, 1000, 20000]), "g": "rnd", "seed": r.randrange(1 << 30)},
+                             {"t": "pop", "k": r.choice([5000, 100000]), "g": "ones", "seed": r.randrange(1 << 30)}])
+        ops = [vec_op(v, tail)]
         for st in stacks:
             ops += [{"op": "build", "kind": st}, {"op": "mem_size"}, {"op": "num_ones"}]
         # structures without a documented bound still report at least the vector they wrap
